@@ -4,6 +4,7 @@
 OUT=$1; SUF=$2; PAR=${3:-3}
 cd "$(dirname "$0")/.."
 for d in $OUT/C*/A $OUT/C*/B; do
+  case " ${ONLY:-} " in "  ") ;; *" $(basename $(dirname $d)) "*) ;; *) continue;; esac
   [ -f $d/patch.diff ] && [ -f $d/demo.py ] || continue
   id=$(basename $(dirname $d)); ab=$(basename $d | tr 'AB' 'ab'); name=$id-$SUF$ab
   [ -f seeded/$name/meta.json ] && continue
